@@ -38,6 +38,7 @@ class EnumDef:
     exhaustive: Optional[str] = None  # 'true' | 'false' | 'conditional' | None (omitted)
     legacy: bool = False  # `exhaustive: x` instead of `exhaustive = x`
     derives: str = ""
+    repr: str = ""  # explicit #[repr(..)] on the enum
 
     @property
     def active(self):
@@ -62,7 +63,9 @@ class EnumDef:
         if self.derives:
             out.append(f"#[derive({self.derives})]")
         maxd = max([d for (_, d, _) in self.variants] + [0])
-        if maxd >= (1 << 63):
+        if self.repr:
+            out.append(f"#[repr({self.repr})]")
+        elif maxd >= (1 << 63):
             out.append("#[repr(u64)]")
         elif maxd >= (1 << 31):
             # isize is 64 bit here, but be explicit for readability
@@ -84,7 +87,7 @@ class EnumDef:
         return "\n".join(out)
 
     def sig(self):
-        return ("enum", self.bits, tuple((d, c) for (_, d, c) in self.variants), self.exhaustive, self.legacy)
+        return ("enum", self.bits, tuple((d, c) for (_, d, c) in self.variants), self.exhaustive, self.legacy, self.repr)
 
     # ---- rule oracle, property C10 ------------------------------------------------------------
     def rule_valid(self) -> bool:
@@ -199,7 +202,7 @@ class Field:
         return self.array[1] if self.array else 0
 
     def is_list(self):
-        return len(self.ranges) > 1 or self.form == "list"
+        return len(self.ranges) > 1 or self.form in ("list", "bit_list")
 
     def attr(self, legacy=False) -> str:
         if self.raw_attr is not None:
@@ -209,7 +212,7 @@ class Field:
             items = []
             for (lo, n) in self.ranges:
                 items.append(f"{lo}" if n == 1 else f"{lo}..={lo + n - 1}")
-            kw = "bits"
+            kw = "bit" if self.form == "bit_list" else "bits"
             args.append("[" + ", ".join(items) + "]")
         else:
             (lo, n) = self.ranges[0]
@@ -261,6 +264,8 @@ class Layout:
     expect_valid: Optional[bool] = None  # filled by rule oracle
     derives: str = ""
     const_name: str = "DEF_CONST"  # name of the named-constant default
+    trailing_comma: bool = False  # #[bitfield(u32, default = 1,)]
+    debug_first: bool = False  # `debug` written before `default`
 
     @property
     def storage(self):
@@ -295,8 +300,11 @@ class Layout:
                     out.append(f"pub const {self.const_name}: u{self.storage} = {v:#x};")
                 args.append(f"default{sep} {self.const_name}")
         if self.debug:
-            args.append("debug")
-        out.append(f"#[bitfield({', '.join(args)})]")
+            if self.debug_first:
+                args.insert(1, "debug")
+            else:
+                args.append("debug")
+        out.append(f"#[bitfield({', '.join(args)}{',' if self.trailing_comma else ''})]")
         if self.derives:
             out.append(f"#[derive({self.derives})]")
         out.append(f"pub struct {self.name} {{")
@@ -309,7 +317,7 @@ class Layout:
         return "\n".join(out)
 
     def sig(self):
-        return (self.base, tuple(f.sig() for f in self.fields), self.default, self.debug, self.legacy, self.const_name)
+        return (self.base, tuple(f.sig() for f in self.fields), self.default, self.debug, self.legacy, self.const_name, self.trailing_comma, self.debug_first)
 
     # ---- rule oracle, property C09 -------------------------------------------------------------
     def rule_valid(self) -> bool:
